@@ -52,7 +52,7 @@ func estStrings(ids []string, H, V int64, sid bool) float64 {
 		hs, vs := fs[0], fs[0]
 		if !sid {
 			vs = "0"
-			if len(fs) > 3 {
+			if len(fs) >= 5 {
 				vs = fs[3]
 			}
 		}
@@ -63,6 +63,9 @@ func estStrings(ids []string, H, V int64, sid bool) float64 {
 		}
 		if e2 != nil {
 			v = 0
+		}
+		if !sid && len(fs) < 5 { // no vertical-zoom field to read: count the horizontal expansion only
+			v = V
 		}
 		s += grow(H, h, V, v)
 	}
@@ -79,8 +82,8 @@ func malformedNear(g *Gen, e eid, sid bool, zoomJunk bool) string {
 	}
 	junk := []string{"x", "", " ", "1 ", " 1", "1.5", "0x10", "９", "1e2", "--1", "+", "-", "92233720368547758070", "-9223372036854775809", "1_0", "١", "1\t", "a"}
 	n := len(fs)
-	switch g.Intn(8) {
-	case 0: // one field too many
+	switch g.Intn(10) {
+	case 0, 8, 9: // one field too many
 		fs = append(fs, pickS(g, "0", "7", "", "-1"))
 	case 1: // one field missing (never the first one: the zoom stays where it is)
 		i := 1 + g.Intn(n-1)
@@ -250,6 +253,23 @@ func mkIDm(g *Gen, H, V int64, budget float64, refine bool, tags *[]string) eid 
 
 func asr(i int64, s uint) int64 { return i >> s }
 
+// fit returns e itself or a descendant of e (one level at a time towards the target zooms) whose expansion is within `left`
+func fit(g *Gen, e eid, H, V int64, left float64, sid bool) eid {
+	for grow(H, e.h, V, e.v) > left {
+		if sid { // one zoom for both axes
+			e.h, e.x, e.y = e.h+1, e.x*2+g.Int63n(2), e.y*2+g.Int63n(2)
+			e.v, e.f = e.v+1, e.f*2+g.Int63n(2)
+			continue
+		}
+		if V > e.v && (H <= e.h || g.Chance(0.5)) {
+			e.v, e.f = e.v+1, e.f*2+g.Int63n(2)
+		} else {
+			e.h, e.x, e.y = e.h+1, e.x*2+g.Int63n(2), e.y*2+g.Int63n(2)
+		}
+	}
+	return e
+}
+
 // an ancestor or a descendant of e (nested inputs)
 func relative(g *Gen, e eid) eid {
 	r := e
@@ -277,12 +297,12 @@ func relative(g *Gen, e eid) eid {
 
 func pickBudget(g *Gen) float64 {
 	switch p := g.Intn(100); {
-	case p < 80:
+	case p < 84:
 		return 120
 	case p < 98:
-		return 500
+		return 400
 	}
-	return 2000
+	return 1500
 }
 
 func listLen(g *Gen) int {
@@ -307,6 +327,10 @@ func mkListM(g *Gen, H, V int64, budget float64, sid, refine bool, tags *[]strin
 	n := listLen(g)
 	if refine && n < 2 {
 		n = 2 + g.Intn(3)
+	}
+	if g.Chance(0.03) { // long lists: mostly one result per input, many repeated and nested members
+		n = 20 + g.Intn(31)
+		*tags = append(*tags, "long-list")
 	}
 	ids := []eid{}
 	overlap := false
@@ -341,11 +365,20 @@ func mkListM(g *Gen, H, V int64, budget float64, sid, refine bool, tags *[]strin
 			isOverlap = true
 		case len(ids) > 0 && (g.Chance(pn) || forced) && sid:
 			b := ids[g.Intn(len(ids))]
-			a := g.Int63n(b.h + 1)
-			if g.Chance(0.5) {
-				a = g.Int63n(a + 1)
+			if g.Chance(0.4) && b.h < 35 { // descendant
+				a := 1 + g.Int63n(2)
+				if b.h+a > 35 {
+					a = 35 - b.h
+				}
+				m := int64(1) << uint(a)
+				e = eid{b.h + a, b.x*m + g.Int63n(m), b.y*m + g.Int63n(m), b.h + a, b.f*m + g.Int63n(m)}
+			} else {
+				a := g.Int63n(b.h + 1)
+				if g.Chance(0.5) {
+					a = g.Int63n(a + 1)
+				}
+				e = eid{b.h - a, b.x >> uint(a), b.y >> uint(a), b.h - a, asr(b.f, uint(a))}
 			}
-			e = eid{b.h - a, b.x >> uint(a), b.y >> uint(a), b.h - a, asr(b.f, uint(a))}
 			*tags = append(*tags, "nested")
 			isOverlap = true
 		case sid:
@@ -361,10 +394,10 @@ func mkListM(g *Gen, H, V int64, budget float64, sid, refine bool, tags *[]strin
 			e = mkIDm(g, H, V, left, refine, tags)
 		}
 		if grow(H, e.h, V, e.v) > left {
-			if forced && isOverlap { // make room: the overlapping partner must fit
-				budget += grow(H, e.h, V, e.v)
+			if !(isOverlap && refine) {
+				continue
 			}
-			continue
+			e = fit(g, e, H, V, left, sid) // a descendant of the overlapping partner that fits: still nested in it
 		}
 		overlap = overlap || isOverlap
 		ids = append(ids, e)
@@ -376,6 +409,75 @@ func mkListM(g *Gen, H, V int64, budget float64, sid, refine bool, tags *[]strin
 		*tags = append(*tags, "refine-only-overlapping")
 	}
 	return ids
+}
+
+// an accepted non-canonical spelling of a decimal field: strconv.ParseInt takes a leading '+', leading zeros and "-0"
+func respell(g *Gen, f string) string {
+	neg := strings.HasPrefix(f, "-")
+	d := strings.TrimPrefix(f, "-")
+	switch g.Intn(5) {
+	case 0:
+		if !neg {
+			return "+" + d
+		}
+		return "-0" + d
+	case 1:
+		return map[bool]string{false: "", true: "-"}[neg] + "00" + d
+	case 2:
+		if d == "0" {
+			return pickS(g, "-0", "+0", "000", "-00")
+		}
+		return map[bool]string{false: "+0", true: "-000"}[neg] + d
+	case 3:
+		return map[bool]string{false: "", true: "-"}[neg] + "0" + d
+	}
+	if !neg {
+		return "+" + d
+	}
+	return f
+}
+
+// re-spell one to three fields of some members; sometimes append a re-spelled copy of a member (same ID, other string)
+func respellList(g *Gen, ss []string) []string {
+	out := append([]string{}, ss...)
+	if len(out) == 0 {
+		return out
+	}
+	for k := 0; k < 1+g.Intn(3); k++ {
+		i := g.Intn(len(out))
+		fs := strings.Split(out[i], "/")
+		for j := 0; j < 1+g.Intn(3); j++ {
+			q := g.Intn(len(fs))
+			if n, err := strconv.ParseInt(fs[q], 10, 64); err == nil && strconv.FormatInt(n, 10) == fs[q] { // canonical fields only: no "++1"
+				fs[q] = respell(g, fs[q])
+			}
+		}
+		t := strings.Join(fs, "/")
+		if g.Chance(0.4) {
+			out = insertAt(out, g.Intn(len(out)+1), t) // the same ID twice, spelled differently
+		} else {
+			out[i] = t
+		}
+	}
+	return out
+}
+
+// a parseable ID that is not valid (outside the property's quantifier; small fields): index out of range for its zoom, or negative x/y
+func invalidNear(g *Gen, e eid) eid {
+	wh, wv := int64(1)<<uint(e.h), int64(1)<<uint(e.v)
+	switch g.Intn(5) {
+	case 0:
+		e.x = wh + g.Int63n(wh+3)
+	case 1:
+		e.y = wh + g.Int63n(3)
+	case 2:
+		e.f = wv + g.Int63n(wv+3)
+	case 3:
+		e.f = -wv - 1 - g.Int63n(wv+3)
+	default:
+		e.x = -1 - g.Int63n(wh+2)
+	}
+	return e
 }
 
 func strs(ids []eid, sid bool) []string {
@@ -440,10 +542,13 @@ func sizeTag(x float64) string {
 		return "est<=10"
 	case x <= 120:
 		return "est<=120"
-	case x <= 500:
-		return "est<=500"
+	case x <= 400:
+		return "est<=400"
 	}
-	return "est<=2000"
+	if x <= 1500 {
+		return "est<=1500"
+	}
+	return "est>1500"
 }
 
 var badZooms = []int64{-1, -1, 36, 36, 36, 37, 100, 1 << 40, -(1 << 62), math.MinInt64, math.MaxInt64, -36}
@@ -507,6 +612,15 @@ func genExt(r *run.Runner, g *Gen, i int) {
 	tags = append(tags, Tag("len=%d", len(ids)), sizeTag(est(ids, H, V)))
 	tags = append(tags, dirTag("h", ids, H, V)...)
 	tags = append(tags, dirTag("v", ids, H, V)...)
+	switch p := g.Intn(100); {
+	case p < 10 && len(ss) > 0:
+		ss = respellList(g, ss)
+		tags = append(tags, "non-canonical-spelling")
+	case p < 13 && len(ids) > 0: // outside the quantifier: correspondence and output well-formedness only
+		k := g.Intn(len(ids))
+		ss[k] = invalidNear(g, ids[k]).ext()
+		tags = append(tags, "invalid-parseable")
+	}
 	if g.Chance(0.05) { // error paths: a malformed member or an invalid target zoom
 		triv = false
 		if g.Chance(0.5) {
@@ -537,8 +651,8 @@ func genExt(r *run.Runner, g *Gen, i int) {
 			tags = []string{"badzoom"}
 			if est(ids, H, V) > 2000 { // an implementation without the check would try to build this: use a list that stays small
 				ss = []string{}
-				if g.Chance(0.5) {
-					ss = []string{malformedNear(g, eid{0, 0, 0, 0, 0}, false, false)}
+				if m := malformedNear(g, eid{35, 1, 2, 35, -3}, false, false); g.Chance(0.5) && estStrings([]string{m}, H, V, false) <= 2000 {
+					ss = []string{m}
 				}
 				tags = append(tags, "badzoom-short-list")
 			}
@@ -555,6 +669,15 @@ func genSid(r *run.Runner, g *Gen, i int) {
 	triv := len(ids) == 0 || identity(ids, z, z)
 	tags = append(tags, Tag("len=%d", len(ids)), sizeTag(est(ids, z, z)))
 	tags = append(tags, dirTag("v", ids, z, z)...)
+	switch p := g.Intn(100); {
+	case p < 10 && len(ss) > 0:
+		ss = respellList(g, ss)
+		tags = append(tags, "non-canonical-spelling")
+	case p < 13 && len(ids) > 0:
+		k := g.Intn(len(ids))
+		ss[k] = invalidNear(g, ids[k]).sid()
+		tags = append(tags, "invalid-parseable")
+	}
 	if g.Chance(0.06) {
 		triv = false
 		if g.Chance(0.6) {
@@ -582,8 +705,8 @@ func genSid(r *run.Runner, g *Gen, i int) {
 			tags = []string{"badzoom"}
 			if est(ids, z, z) > 2000 {
 				ss = []string{}
-				if g.Chance(0.5) {
-					ss = []string{malformedNear(g, eid{0, 0, 0, 0, 0}, true, false)}
+				if m := malformedNear(g, eid{35, 1, 2, 35, -3}, true, false); g.Chance(0.5) && estStrings([]string{m}, z, z, true) <= 2000 {
+					ss = []string{m}
 				}
 				tags = append(tags, "badzoom-short-list")
 			}
@@ -595,6 +718,9 @@ func genSid(r *run.Runner, g *Gen, i int) {
 func hArgs(g *Gen, tags *[]string) (int64, int64, int64, int64) {
 	zout := g.Zoom()
 	d := pickDiff(g, 4)
+	if g.Chance(0.03) {
+		d = 5 // 4^5 results
+	}
 	zin := clampZ(zout - d)
 	if zout > zin {
 		*tags = append(*tags, "h-up")
@@ -608,6 +734,9 @@ func hArgs(g *Gen, tags *[]string) (int64, int64, int64, int64) {
 func vArgs(g *Gen, tags *[]string) (int64, int64, int64) {
 	zout := g.Zoom()
 	d := pickDiff(g, 8)
+	if g.Chance(0.03) {
+		d = 9 + g.Int63n(2) // up to 2^10 results
+	}
 	zin := clampZ(zout - d)
 	f := vIndexFor(g, zin, zout, tags)
 	if zout > zin {
@@ -683,6 +812,9 @@ func genSeq(r *run.Runner, g *Gen) {
 		kind = "h-related"
 		var t []string
 		zin, x, y, zout := hArgs(g, &t)
+		for zout-zin > 4 {
+			zin, x, y, zout = hArgs(g, &t)
+		}
 		z2 := clampZ(zout + g.Pick(-2, -1, 1, 2))
 		if z2-zin > 4 {
 			z2 = zin
@@ -697,6 +829,9 @@ func genSeq(r *run.Runner, g *Gen) {
 		kind = "v-related"
 		var t []string
 		zin, f, zout := vArgs(g, &t)
+		for zout-zin > 8 {
+			zin, f, zout = vArgs(g, &t)
+		}
 		z2 := clampZ(zout + g.Pick(-2, -1, 1, 2))
 		if z2-zin > 9 {
 			z2 = zin
@@ -794,7 +929,7 @@ func exhaustive(r *run.Runner) {
 }
 
 func init() {
-	Scale["C03"] = 6000
+	Scale["C03"] = 5000
 	Registry["C03"] = func(r *run.Runner, g *Gen, n int) {
 		r.Register(&run.Fn{Name: "ChangeExtendedSpatialIdsZoom", Invoke: callExt}, &run.Fn{Name: "ChangeSpatialIdsZoom", Invoke: callSid},
 			&run.Fn{Name: "HorizontalZoom", Invoke: callH}, &run.Fn{Name: "VerticalZoom", Invoke: callV},
